@@ -448,7 +448,8 @@ def run_check(pid, tier="quick", seed=0, workers=None, replay=None, only=None):
             floor = json.load(f).get(pid, {}).get(tier)
     except FileNotFoundError:
         pass
-    if floor is not None and not cap_hit and only is None and nontrivial < floor:
+    vac_ok = exit_code == 0  # a run that already reports violations has decided; vacuity is only asked of silent runs
+    if vac_ok and floor is not None and not cap_hit and only is None and nontrivial < floor:
         print(f"VACUOUS property={pid} tier={tier}: only {nontrivial} non-trivial states (floor {floor}, measured on the unchanged tree): the exploration does not decide the property")
         exit_code = max(exit_code, 3)
     try:
@@ -457,7 +458,7 @@ def run_check(pid, tier="quick", seed=0, workers=None, replay=None, only=None):
     except FileNotFoundError:
         cfloors = {}
     for k, fl in sorted(cfloors.items()):
-        if not cap_hit and only is None and info.get(k, 0) < fl:
+        if vac_ok and not cap_hit and only is None and info.get(k, 0) < fl:
             print(f"VACUOUS property={pid} tier={tier}: counter {k} = {info.get(k, 0)} (floor {fl}, measured on the unchanged tree): the exploration does not decide the property")
             exit_code = max(exit_code, 3)
 
